@@ -311,10 +311,11 @@ Qed.
 Section Trip.
   Variable qp : list N -> str.
   Variable qp_dec : str -> list N.
-  (** wp-audit: the coding of bytes has to invert on BYTE strings only (every element < 256) - which the modelled
-      quoted-printable pair [Codec.qp_simple] / [Heap.qp_dec_simple] does, whereas it does not on arbitrary
-      [list N] ([256] comes back as [0]): the earlier hypothesis [forall b, qp_dec (qp b) = b] excluded it.
-      The only byte strings that travel here are a base64 text and the placeholder. *)
+  (** wp-audit: the coding of bytes has to invert on BYTE strings only (every element < 256): the only byte
+      strings that travel here are a base64 text and the placeholder.  The earlier hypothesis
+      [forall b, qp_dec (qp b) = b], over every [list N], is met by [Codec.qp_simple] with the decoder
+      [JsonParse.qp_dec_simple] but not with the heap model's decoder [Heap.qp_dec_simple] ([256] comes back as
+      [0]); the guarded form is met by both and is all the proofs below need. *)
   Hypothesis qp_roundtrip : forall b, bytes_ok b = true -> qp_dec (qp b) = b.
 
   (** the file record through flatten / restore, computed directly: dict items come back in key order *)
